@@ -51,6 +51,7 @@ type Unit struct {
 	NoValidate bool    `json:"no_validate"`
 	NoMerge   bool     `json:"no_merge"`
 	NoDivAxiom bool    `json:"no_div_axiom"`
+	SchedFIFO bool     `json:"sched_fifo"` // at forced switches run the lowest-numbered runnable goroutine instead of forking over all (sequential harnesses with incidental goroutines)
 }
 
 type Config struct {
@@ -219,6 +220,8 @@ type Stats struct {
 	SampleVecs   [][]ReplayVal
 	PrimaryUnknown int
 	Fallback     map[string]int
+	DecLabels    map[string]int
+	Merges       int
 }
 
 type workQueue struct {
@@ -302,6 +305,25 @@ func (P *Prog) explore(entry *ssa.Function, workers int) *Stats {
 	var mu sync.Mutex
 	var wg sync.WaitGroup
 	budgetHit := false
+	if os.Getenv("VERIF_PROGRESS") != "" {
+		stop := make(chan struct{})
+		defer close(stop)
+		go func() {
+			t0 := time.Now()
+			for {
+				select {
+				case <-stop:
+					return
+				case <-time.After(10 * time.Second):
+					mu.Lock()
+					q.mu.Lock()
+					fmt.Fprintf(os.Stderr, "[progress %s %.0fs] paths=%d queued=%d active=%d outcomes=%v maxdec=%d\n", entry.Name(), time.Since(t0).Seconds(), st.Paths, len(q.items), q.active, st.ByOutcome, st.MaxDecisions)
+					q.mu.Unlock()
+					mu.Unlock()
+				}
+			}
+		}()
+	}
 	for w := 0; w < workers; w++ {
 		wg.Add(1)
 		go func() {
@@ -361,6 +383,13 @@ func (P *Prog) explore(entry *ssa.Function, workers int) *Stats {
 				}
 				for w := range p.warnings {
 					st.Warnings[w] = true
+				}
+				st.Merges += p.merges
+				for l, n := range p.decLabels {
+					if st.DecLabels == nil {
+						st.DecLabels = map[string]int{}
+					}
+					st.DecLabels[l] += n
 				}
 				for f := range p.fnsSeen {
 					st.Fns[f] = true
